@@ -26,6 +26,7 @@ func WorkerMain(args []string) int {
 	deadline := fs.Int64("deadline", 0, "")
 	resume := fs.Int64("resume", -1, "")
 	only := fs.Int64("only", -1, "")
+	upto := fs.Int64("upto", -1, "")
 	progress := fs.String("progress", "", "")
 	seed := fs.Int64("seed", 0, "")
 	describe := fs.Bool("describe", false, "")
@@ -49,6 +50,7 @@ func WorkerMain(args []string) int {
 	rc := NewRunCtx(prop, *tier, *shard, *nshards, dl)
 	rc.Seed = *seed
 	rc.Only = *only
+	rc.Upto = *upto
 	rc.Resume = *resume
 	DescribeMode = *describe
 	if ff, err := LoadFindings(filepath.Join(VerifDir, "known_findings.json")); err == nil {
